@@ -366,6 +366,35 @@ func (ns *normState) collect(p *Prog, pkg *packages.Package, f *ast.File, src []
 	var visitList func(list []ast.Stmt, enclosing *ast.FuncType)
 	var visitNode func(n ast.Node, enclosing *ast.FuncType)
 	tailStmt := map[ast.Stmt]bool{} // last statement of a function body
+	// nearTail: a statement followed only by the function's final `return` of plain identifiers / literals. A callee
+	// whose only defers are zero-argument Unlock/RUnlock calls may be spliced in there as well: the deferred unlock
+	// then runs after the operands of that return were read instead of before, which no one can observe (the
+	// operands are locals or named results and an unlock does not write them).
+	nearTail := map[ast.Stmt]bool{}
+	markTail := func(list []ast.Stmt) {
+		n := len(list)
+		if n == 0 {
+			return
+		}
+		tailStmt[list[n-1]] = true
+		if ret, ok := list[n-1].(*ast.ReturnStmt); ok && n >= 2 {
+			plain := true
+			for _, e := range ret.Results {
+				switch x := e.(type) {
+				case *ast.Ident, *ast.BasicLit:
+				case *ast.UnaryExpr:
+					if _, isLit := x.X.(*ast.BasicLit); !isLit || x.Op == token.AND || x.Op == token.ARROW {
+						plain = false
+					}
+				default:
+					plain = false
+				}
+			}
+			if plain {
+				nearTail[list[n-2]] = true
+			}
+		}
+	}
 
 	handle := func(st ast.Stmt, enclosing *ast.FuncType) bool {
 		// returns true if the statement was rewritten
@@ -436,6 +465,7 @@ func (ns *normState) collect(p *Prog, pkg *packages.Package, f *ast.File, src []
 		}
 		_ = neg
 		if call == nil || call.Ellipsis != token.NoPos && false {
+			dbgBail(468)
 			return false
 		}
 		ci, recvExpr := resolve(call)
@@ -443,16 +473,22 @@ func (ns *normState) collect(p *Prog, pkg *packages.Package, f *ast.File, src []
 			fmt.Fprintf(os.Stderr, "DBG handle kind=%s call=%s resolved=%v\n", kind, string(src[off(call.Pos()):off(call.End())]), ci != nil)
 		}
 		if ci == nil {
+			dbgBail(475)
 			return false
 		}
 		if ci.hasDefer {
 			// the callee's defers run when IT returns; spliced into the caller they run when the caller returns:
 			// the same moment only if the call is the caller's last action, and only a plain call or `return f()`
-			if !tailStmt[st] || (kind != "expr" && kind != "return") {
-				return false
-			}
-			if kind == "expr" && enclosing.Results != nil && len(enclosing.Results.List) > 0 {
-				return false
+			near := nearTail[st] && kind == "expr" && unlockDefersOnly(ci.decl)
+			if !near {
+				if !tailStmt[st] || (kind != "expr" && kind != "return") {
+					dbgBail(483)
+					return false
+				}
+				if kind == "expr" && enclosing.Results != nil && len(enclosing.Results.List) > 0 {
+					dbgBail(486)
+					return false
+				}
 			}
 		}
 		// the callee must not be the function we are in (mutual recursion is cut by the round limit)
@@ -465,6 +501,7 @@ func (ns *normState) collect(p *Prog, pkg *packages.Package, f *ast.File, src []
 		for i := 0; i < sig.Results().Len(); i++ {
 			ts, ok := typeStr(sig.Results().At(i).Type())
 			if !ok {
+				dbgBail(500)
 				return false
 			}
 			rn := fmt.Sprintf("r%d%s", i, k)
@@ -486,10 +523,12 @@ func (ns *normState) collect(p *Prog, pkg *packages.Package, f *ast.File, src []
 				}
 			}
 			if want != len(rnames) {
+				dbgBail(521)
 				return false
 			}
 		}
 		if (kind == "ifcond" || kind == "ifand") && len(rnames) != 1 {
+			dbgBail(525)
 			return false
 		}
 		// callee body with renames
@@ -617,6 +656,7 @@ func (ns *normState) collect(p *Prog, pkg *packages.Package, f *ast.File, src []
 		ns.tailMode = false
 		ns.flagIdx = -1
 		if !ok {
+			dbgBail(652)
 			return false
 		}
 		if kind == "defer" {
@@ -625,6 +665,7 @@ func (ns *normState) collect(p *Prog, pkg *packages.Package, f *ast.File, src []
 		}
 		// capture check: free package-level identifiers must resolve identically at the call site
 		if !captureSafe(pkg, ci, call.Pos()) {
+			dbgBail(660)
 			return false
 		}
 		if kind != "defer" {
@@ -635,6 +676,7 @@ func (ns *normState) collect(p *Prog, pkg *packages.Package, f *ast.File, src []
 			rt := sig.Recv().Type()
 			xt := pkg.TypesInfo.TypeOf(recvExpr)
 			if xt == nil {
+				dbgBail(670)
 				return false
 			}
 			rtxt := string(src[off(recvExpr.Pos()):off(recvExpr.End())])
@@ -648,6 +690,7 @@ func (ns *normState) collect(p *Prog, pkg *packages.Package, f *ast.File, src []
 			}
 			ts, ok := typeStr(rt)
 			if !ok {
+				dbgBail(683)
 				return false
 			}
 			name := "_"
@@ -670,6 +713,7 @@ func (ns *normState) collect(p *Prog, pkg *packages.Package, f *ast.File, src []
 				pt := sig.Params().At(pi).Type()
 				ts, ok := typeStr(pt)
 				if !ok {
+					dbgBail(705)
 					return false
 				}
 				var atxt string
@@ -686,6 +730,7 @@ func (ns *normState) collect(p *Prog, pkg *packages.Package, f *ast.File, src []
 					}
 				} else {
 					if pi >= len(call.Args) {
+						dbgBail(721)
 						return false
 					}
 					a := call.Args[pi]
@@ -713,6 +758,7 @@ func (ns *normState) collect(p *Prog, pkg *packages.Package, f *ast.File, src []
 				for _, nm := range fl.Names {
 					ts, ok := typeStr(sig.Results().At(ri).Type())
 					if !ok {
+						dbgBail(748)
 						return false
 					}
 					if nm.Name != "_" {
@@ -859,9 +905,7 @@ func (ns *normState) collect(p *Prog, pkg *packages.Package, f *ast.File, src []
 			// function literals inside other statements
 			ast.Inspect(n, func(m ast.Node) bool {
 				if fl, ok := m.(*ast.FuncLit); ok {
-					if n := len(fl.Body.List); n > 0 {
-						tailStmt[fl.Body.List[n-1]] = true
-					}
+					markTail(fl.Body.List)
 					visitList(fl.Body.List, fl.Type)
 					return false
 				}
@@ -874,9 +918,7 @@ func (ns *normState) collect(p *Prog, pkg *packages.Package, f *ast.File, src []
 		if !ok || fd.Body == nil {
 			continue
 		}
-		if n := len(fd.Body.List); n > 0 {
-			tailStmt[fd.Body.List[n-1]] = true
-		}
+		markTail(fd.Body.List)
 		visitList(fd.Body.List, fd.Type)
 	}
 	// a literal all of whose calls were spliced in is deleted together with its `_ = f` line
@@ -896,6 +938,28 @@ func (ns *normState) collect(p *Prog, pkg *packages.Package, f *ast.File, src []
 // Calling such a literal is replaced by its body like a call of a new helper (beta-reduction), so a
 // helper taking a callback — `rb.eachServer(func(s *rbServer) {...})` — normalises to a plain loop.
 // containsDefer: a defer statement of the function itself (not of a literal nested in it).
+// unlockDefersOnly: every defer statement of the function (not of nested literals) is a zero-argument call of a
+// method named Unlock or RUnlock.
+func unlockDefersOnly(fd *ast.FuncDecl) bool {
+	if fd == nil || fd.Body == nil {
+		return false
+	}
+	ok := true
+	ast.Inspect(fd.Body, func(n ast.Node) bool {
+		switch x := n.(type) {
+		case *ast.FuncLit:
+			return false
+		case *ast.DeferStmt:
+			se, isSel := x.Call.Fun.(*ast.SelectorExpr)
+			if !isSel || len(x.Call.Args) != 0 || (se.Sel.Name != "Unlock" && se.Sel.Name != "RUnlock") {
+				ok = false
+			}
+		}
+		return ok
+	})
+	return ok
+}
+
 func containsDefer(body *ast.BlockStmt) bool {
 	found := false
 	ast.Inspect(body, func(n ast.Node) bool {
@@ -1191,10 +1255,12 @@ func captureSafe(pkg *packages.Package, ci *calleeInfo, at token.Pos) bool {
 		return false
 	}
 	ok := true
+	qualified := map[*ast.Ident]bool{} // the Sel of pkg.Name: resolved through the package name, checked below
 	ast.Inspect(ci.decl.Body, func(n ast.Node) bool {
 		if se, isSel := n.(*ast.SelectorExpr); isSel {
 			if id, isId := se.X.(*ast.Ident); isId {
 				if pn, isPkg := ci.pkg.TypesInfo.Uses[id].(*types.PkgName); isPkg {
+					qualified[se.Sel] = true
 					_, o := scope.LookupParent(id.Name, at)
 					if pn2, ok2 := o.(*types.PkgName); !ok2 || pn2.Imported() != pn.Imported() {
 						ok = false
@@ -1203,7 +1269,7 @@ func captureSafe(pkg *packages.Package, ci *calleeInfo, at token.Pos) bool {
 			}
 		}
 		id, isId := n.(*ast.Ident)
-		if !isId {
+		if !isId || qualified[id] {
 			return true
 		}
 		o := ci.pkg.TypesInfo.Uses[id]
@@ -1558,4 +1624,10 @@ func (ns *normState) switchRound(p *Prog) (bool, error) {
 		}
 	}
 	return changed, nil
+}
+
+func dbgBail(line int) {
+	if os.Getenv("OXY_DEBUG") == "norm" {
+		fmt.Fprintf(os.Stderr, "DBG bail at normalize.go:%d\n", line)
+	}
 }
